@@ -28,6 +28,40 @@ def write_replay(pid, obj, tag):
         json.dump(obj, f, indent=1, sort_keys=True)
     return p
 
+def shrink_case(P, case, still_fails, max_rounds=60):
+    """Greedy delta-debugging over the operation list of a case (field named by
+    P.ops_field): drop chunks, then single operations, while the failure persists.
+    `still_fails(list of cases) -> list of bool` evaluates a batch."""
+    fld = getattr(P, 'ops_field', None)
+    if not fld or not isinstance(case, dict) or fld not in case:
+        return case
+    cur = dict(case)
+    rounds = 0
+    chunk = max(1, len(cur[fld]) // 2)
+    while rounds < max_rounds and len(cur[fld]) > 1:
+        rounds += 1
+        ops = cur[fld]
+        cands = []
+        for i in range(0, len(ops), chunk):
+            c = dict(cur); c[fld] = ops[:i] + ops[i + chunk:]
+            if c[fld]:
+                cands.append(c)
+        if not cands:
+            break
+        try:
+            res = still_fails(cands)
+        except Exception:
+            break
+        hit = next((c for c, r in zip(cands, res) if r), None)
+        if hit is not None:
+            cur = hit
+            chunk = max(1, min(chunk, len(cur[fld]) // 2))
+        elif chunk > 1:
+            chunk = max(1, chunk // 2)
+        else:
+            break
+    return cur
+
 def run(pid, tier, seed, replay=None):
     t0 = time.time()
     mod = importlib.import_module('gen.' + pid.lower())
@@ -38,6 +72,7 @@ def run(pid, tier, seed, replay=None):
     known = [k for k in load_known() if k['property'] == pid and k.get('status') == 'open']
 
     # ------------------------------------------------------------ proof stage
+    coqrun.write_coqproject()
     theorems = coqrun.parse_props_file(P.props_file)
     bad = coqrun.scan_forbidden()
     rc, out, dt = coqrun.make_targets([P.props_file[:-2] + '.vo'] + getattr(P, 'extra_targets', []),
@@ -160,9 +195,22 @@ def run(pid, tier, seed, replay=None):
             lines.append('KNOWN-FINDING: property=%s %s' % (pid, kf['what_fails']))
     if spec_fail:
         k, why = spec_fail[0]
-        k = P.shrink(cases[k], why) if hasattr(P, 'shrink') else cases[k]
-        rp = write_replay(pid, {'property': pid, 'kind': 'spec-violation-on-implementation', 'why': why,
-                                'case': P.case_to_json(k if not isinstance(k, int) else cases[k]),
+        def fails_spec(cs):
+            obs, _ = P.run_impl(cs, tier)
+            if obs is None:
+                return [False] * len(cs)
+            out = []
+            for c1, o1 in zip(cs, obs):
+                w1 = P.oracle(c1, o1)
+                out.append(bool(w1) and not any(P.in_known_class(kf, c1, o1, w1) for kf in known))
+            return out
+        small = shrink_case(P, cases[k], fails_spec) if not replay else cases[k]
+        why_small = why
+        if small is not cases[k]:
+            o1, _ = P.run_impl([small], tier)
+            why_small = (P.oracle(small, o1[0]) if o1 else None) or why
+        rp = write_replay(pid, {'property': pid, 'kind': 'spec-violation-on-implementation', 'why': why_small,
+                                'case': P.case_to_json(small), 'unshrunk_case': P.case_to_json(cases[k]),
                                 'replay_cmd': 'bin/check %s --replay <this file>' % pid}, 'violation')
         lines.append('VIOLATION property=%s replay=%s' % (pid, rp))
         nviol += len(spec_fail)
@@ -181,9 +229,19 @@ def run(pid, tier, seed, replay=None):
                'correspondence': P.correspondence_name}
         if mismatches:
             k = mismatches[0]
-            obj['case'] = P.case_to_json(cases[k])
-            obj['impl'] = impl_obs[k]
-            obj['model'] = model_obs[k]
+            def disagrees(cs):
+                a, _ = P.run_impl(cs, tier)
+                b, _ = P.run_model(cs, tier)
+                if a is None or b is None:
+                    return [False] * len(cs)
+                return [P.canon(c1, x) != P.canon(c1, y) for c1, x, y in zip(cs, a, b)]
+            small = shrink_case(P, cases[k], disagrees, max_rounds=25) if not replay else cases[k]
+            a, _ = P.run_impl([small], tier)
+            b, _ = P.run_model([small], tier)
+            obj['case'] = P.case_to_json(small)
+            obj['impl'] = a[0] if a else impl_obs[k]
+            obj['model'] = b[0] if b else model_obs[k]
+            obj['unshrunk_case'] = P.case_to_json(cases[k])
         rp = write_replay(pid, obj, 'broken')
         lines.append('VIOLATION property=%s replay=%s no-failing-input-found' % (pid, rp))
         nviol += 1
